@@ -101,21 +101,23 @@ def out_of_get(v):
     return ["got", f"<{type(v).__name__}>"]
 
 
-def apply_op(cache, clock: Clock, op: list):
-    """run one explicit op on the real cache; returns the protocol rendering of its result"""
+def apply_op(cache, clock: Clock, op: list, s=1):
+    """run one explicit op on the real cache; returns the protocol rendering of its result.  `s`: every clock value and ttl is
+    multiplied by it (s = 0.5: half-second clock and ttls 0.5, 1.5, … — exact in binary floating point, so the run must be
+    step for step the one with s = 1)"""
     kind = op[0]
     try:
         if kind == "get":
-            clock.now = op[2]
+            clock.now = op[2] * s
             return out_of_get(cache.get(op[1]))
         if kind == "set":
-            clock.now, clock.after = op[4], op[5]
+            clock.now, clock.after = op[4] * s, op[5] * s
             clock.armed = op[5] != op[4]
             try:
-                r = cache.set(op[1], op[2], op[3])
+                r = cache.set(op[1], op[2], None if op[3] is None else op[3] * s)
             finally:
                 clock.armed = False
-                clock.now = op[5]
+                clock.now = op[5] * s
             return "done" if r is None else f"returned:{r!r}"
         if kind == "del":
             r = cache.delete(op[1])
@@ -130,7 +132,7 @@ def apply_op(cache, clock: Clock, op: list):
     raise lib.CheckError(f"bad op {op!r}")
 
 
-def run_impl(maxsize: int, ops: list) -> list:
+def run_impl(maxsize: int, ops: list, s=1) -> list:
     """observations [[out, keys], …] of the real cache on an explicit op sequence"""
     clock = Clock()
     with patched_time(FakeTime(clock)):
@@ -140,7 +142,7 @@ def run_impl(maxsize: int, ops: list) -> list:
         cache._data = d
         obs = []
         for op in ops:
-            out = apply_op(cache, clock, op)
+            out = apply_op(cache, clock, op, s)
             obs.append([out, list(cache._data.keys())])
     return obs
 
@@ -487,12 +489,17 @@ def classify(run: lib.Run, maxsize: int, ops: list, obs: list) -> bool:
 def run_sequences(run: lib.Run, prefix, seqs: list, label: str) -> None:
     """seqs: [(maxsize, ops)] → impl observations, model, Lean spec on the impl's observations"""
     batch, cmds = [], []
-    for maxsize, ops in seqs:
-        obs = run_impl(maxsize, ops)
-        batch.append((maxsize, ops, obs))
-        cmds.append(cmd_ops(maxsize, prefix, ops, obs if well_formed(obs) else None))
+    for k, (maxsize, ops) in enumerate(seqs):
+        for s in ((1, 0.5) if k % 3 == 0 and label != "corpus" else (1,)):
+            obs = run_impl(maxsize, ops, s)
+            batch.append((maxsize, ops, obs, s))
+            cmds.append(cmd_ops(maxsize, prefix, ops, obs if well_formed(obs) else None))
     answers = proto.run_driver(cmds)
-    for n, ((maxsize, ops, obs), ans) in enumerate(zip(batch, answers)):
+    base_label = label
+    for n, ((maxsize, ops, obs, s), ans) in enumerate(zip(batch, answers)):
+        label = base_label if s == 1 else base_label + "/clock-and-ttls-halved"
+        if s != 1:
+            run.count("seq:fractional-ttl")
         nontrivial = classify(run, maxsize, ops, obs)
         run.case([maxsize, ops], nontrivial, {"kind": label, "maxsize": maxsize, "ops": ops[:12], "n_ops": len(ops),
                                               "impl_first": obs[:12]} if nontrivial and len(run.samples) < 3 else None)
@@ -933,9 +940,10 @@ def replay(run: lib.Run, audit: dict, path: str) -> int:
         print(json.dumps(rp, indent=1)[:4000])
         return 0
     prefix = audit["facts"]["cache"]["purge_prefix"] if audit.get("facts") else c.get("prefix")
-    obs = run_impl(c["maxsize"], c["ops"])
+    s = 0.5 if "halved" in str(c.get("label", "")) else 1
+    obs = run_impl(c["maxsize"], c["ops"], s)
     ans = proto.run_driver([cmd_ops(c["maxsize"], prefix, c["ops"], obs if well_formed(obs) else None)])[0]
-    print(f"maxsize={c['maxsize']} purge_prefix={prefix}")
+    print(f"maxsize={c['maxsize']} purge_prefix={prefix}" + (" (implementation run with every clock value and ttl multiplied by 0.5)" if s != 1 else ""))
     for i, (op, o, m) in enumerate(zip(c["ops"], obs, ans["model"])):
         print(f"  #{i} {op}: impl={o} model={m}" + ("   <-- differs" if o != m else ""))
     print("spec on the implementation's observations:", ans["observed_spec"])
